@@ -6,7 +6,7 @@
    that is needed of \d: it contains 0-9 and neither ';' nor 'm'. *)
 From Grex Require Import Base.Str Base.Ranges Model.Config Model.Cluster Model.Dfa Model.Expr
   Model.Print Model.Pipeline.
-From Grex Require Import Proofs.ColourStrip Proofs.CcSorted Proofs.PropsGlue.
+From Grex Require Import Proofs.ColourStrip Proofs.CcSorted Proofs.PropsGlue Proofs.ColourBuild.
 From GrexGen Require Import OracleTables.
 
 (* the expression produced by the pipeline (any settings c0, any clusters), printed with any
@@ -46,9 +46,34 @@ Theorem C15_plain_no_sgr : forall isd c e, esc_free e ->
   strip_sgr isd (regexp_str isd (with_colour c false) e) = regexp_str isd (with_colour c false) e.
 Proof. exact plain_no_sgr. Qed.
 
+(* two runs of build() that differ only in the colour flag (same test cases, same oracle data,
+   same recorded self-check outcome): stripping the highlighted output gives the plain output.
+   Nothing but the printer reads the flag (C15_colour_unread) *)
+Theorem C15_build : forall isd c db sc ws s1 s2, digit_ok isd ->
+  build isd (with_colour c true) db sc ws = Some s1 ->
+  build isd (with_colour c false) db sc ws = Some s2 ->
+  strip_sgr isd s1 = s2.
+Proof. exact build_colour_strip. Qed.
+
+(* the plain run exists (build never fails) *)
+Theorem C15_build_ex : forall isd c db sc ws s1, digit_ok isd ->
+  build isd (with_colour c true) db sc ws = Some s1 ->
+  exists s2, build isd (with_colour c false) db sc ws = Some s2 /\ strip_sgr isd s1 = s2.
+Proof. exact build_colour_strip_ex. Qed.
+
+(* the stages before the printer do not read the colour flag *)
+Theorem C15_colour_unread : forall c b,
+  (forall db ws, normalise (with_colour c b) db ws = normalise c db ws)
+  /\ (forall db ws, grapheme_clusters (with_colour c b) db ws = grapheme_clusters c db ws)
+  /\ (forall cls sc, Pipeline.final_expr (with_colour c b) cls sc = Pipeline.final_expr c cls sc).
+Proof. exact colour_unread. Qed.
+
 Print Assumptions C15_pipeline.
 Print Assumptions C15_cc_sorted.
 Print Assumptions C15_digit_ok.
 Print Assumptions C15_any_expr.
 Print Assumptions C15_e_str.
 Print Assumptions C15_plain_no_sgr.
+Print Assumptions C15_build.
+Print Assumptions C15_build_ex.
+Print Assumptions C15_colour_unread.
